@@ -649,6 +649,7 @@ class Node(object):
                 individual_to_receive.service_end_date = individual_to_receive.service_start_date + individual_to_receive.original_service_time
                 node_to_receive_from.interrupted_individuals.remove(individual_to_receive)
                 node_to_receive_from.number_interrupted_individuals -= 1
+                node_to_receive_from.number_in_service += 1  # counted out at the interruption, and again by release()
             node_to_receive_from.release(individual_to_receive, self)
 
     def reset_class_change(self, individual):
